@@ -348,6 +348,180 @@ def model_str_attrs():
     return re.findall(r'"([^"]+)"', m.group(1)) if m else []
 
 
+# ------------------------------------------------------------------ model-less probes (judged by a fixed oracle)
+# rebind: the SAME parsed functions are executed again after a Python variable named like the entity's domain appears /
+#         disappears ("local and global Python variables take precedence over state names" - at every execution, not
+#         only the first one of a parsed statement): reads, attribute reads, writes, attribute writes, deletes.
+# alias:  state.set(name, value, new_attributes=D, k=v) with a caller-owned dict D that is inspected afterwards and
+#         REUSED for another entity: the caller's dict is unchanged, the second entity gets exactly D (+ its own keywords).
+PROBE_SRC = """
+@service
+def pstep(i=None, fn=None):
+    try:
+        rec('pout', i, PF[fn]())
+    except Exception as e:
+        rec('pexc', i, type(e).__name__, str(e))
+
+def rb_bind():
+    global sensor
+    sensor = mkns('global')
+def rb_unbind():
+    global sensor
+    del sensor
+def rb_read():
+    return sensor.e2
+def rb_readattr():
+    return sensor.e2.a0
+def rb_write():
+    sensor.e2 = 'w'
+def rb_attrwrite():
+    sensor.e2.a0 = 7
+def rb_delattr():
+    del sensor.e2.a0
+def rb_del():
+    del sensor.e2
+def al_kw():
+    D = {'a0': 1}
+    state.set('pyscript.pa', 'v1', new_attributes=D, k1=5)
+    d1 = dict(D)
+    state.set('pyscript.pb', 'v2', D)
+    return [d1, dict(D), state.getattr('pyscript.pa'), state.getattr('pyscript.pb')]
+def al_pos():
+    D = {}
+    state.set('pyscript.pa', 'v1', D, k1=5, k2='x')
+    d1 = dict(D)
+    state.set('pyscript.pb', 'v2', new_attributes=D)
+    return [d1, dict(D), state.getattr('pyscript.pa'), state.getattr('pyscript.pb')]
+def al_reuse():
+    D = {'a0': 1, 'a1': [2]}
+    state.set('pyscript.pa', 'v1', D, k1=5)
+    d1 = dict(D)
+    state.set('pyscript.pb', 'v2', D, k2=6)
+    return [d1, dict(D), state.getattr('pyscript.pa'), state.getattr('pyscript.pb')]
+PF = {'rb_bind': rb_bind, 'rb_unbind': rb_unbind, 'rb_read': rb_read, 'rb_readattr': rb_readattr, 'rb_write': rb_write,
+      'rb_attrwrite': rb_attrwrite, 'rb_delattr': rb_delattr, 'rb_del': rb_del, 'al_kw': al_kw, 'al_pos': al_pos,
+      'al_reuse': al_reuse}
+"""
+RB_FNS = ["rb_read", "rb_readattr", "rb_write", "rb_attrwrite", "rb_delattr", "rb_del"]
+# what each function must do to the entity sensor.e2 = ('on', {a0: 1}) when `sensor` is NOT a Python variable ...
+RB_UNBOUND = {"rb_read": (["sv", "on"], ["on", [["a0", "1"]]]), "rb_readattr": (["val", "1"], ["on", [["a0", "1"]]]),
+              "rb_write": (["val", "null"], ["w", [["a0", "1"]]]), "rb_attrwrite": (["val", "null"], ["on", [["a0", "7"]]]),
+              "rb_delattr": (["val", "null"], ["on", []]), "rb_del": (["val", "null"], None)}
+# ... and when it is: the Python object is read / gets the setattr / delattr, the state machine is not touched
+RB_BOUND = {"rb_read": "py", "rb_readattr": "py", "rb_write": "setattr", "rb_attrwrite": "setattr",
+            "rb_delattr": "delattr", "rb_del": "delattr"}
+AL_EXPECT = {"al_kw": [{"a0": 1}, {"a0": 1}, {"a0": 1, "k1": 5}, {"a0": 1}],
+             "al_pos": [{}, {}, {"k1": 5, "k2": "x"}, {}],
+             "al_reuse": [{"a0": 1, "a1": [2]}, {"a0": 1, "a1": [2]}, {"a0": 1, "a1": [2], "k1": 5}, {"a0": 1, "a1": [2], "k2": 6}]}
+
+
+def probe_cases(rng):
+    out = []
+    for legacy in (True, False):
+        for order in ("UBU", "BUB", "UBUB"):
+            fns = list(RB_FNS)
+            rng.shuffle(fns)
+            out.append({"kind": "probe", "probe": "rebind", "legacy": legacy, "order": order, "fns": fns,
+                        "env": {"globals": [], "locals": []}, "ops": []})
+        out.append({"kind": "probe", "probe": "alias", "legacy": legacy, "fns": ["al_kw", "al_pos", "al_reuse"],
+                    "env": {"globals": [], "locals": []}, "ops": []})
+    return out
+
+
+def run_probe(p):
+    from ha_env import run_ha
+    from custom_components.pyscript.function import Function
+    from custom_components.pyscript.state import StateVal
+    nslog = []
+    Function.functions.update({"mkns": lambda tag: NS(tag, nslog)})
+
+    async def body(env):
+        steps = []
+        n = [0]
+
+        async def call(fn):
+            del nslog[:]
+            n[0] += 1
+            nrec = len(env.records)
+            await env.call("pyscript", "pstep", {"i": n[0], "fn": fn})
+            await env.settle(0)
+            recs = [r for r in env.records[nrec:] if r[1] in ("pout", "pexc") and r[2] == n[0]]
+            if len(recs) != 1:
+                return ["harness", f"{len(recs)} records"]
+            if recs[0][1] == "pexc":
+                return ["exc", recs[0][3]]
+            raw = recs[0][3]
+            if nslog:
+                return ["py", nslog[-1]]
+            if isinstance(raw, StateVal):
+                return ["sv", str(raw)]
+            if isinstance(raw, NS):
+                return ["py", "py"]
+            return ["val", canon_val(raw)]
+
+        if p["probe"] == "alias":
+            for fn in p["fns"]:
+                steps.append({"fn": fn, "out": await call(fn)})
+            return steps
+        bound = False
+        for phase in p["order"]:
+            if phase == "B" and not bound:
+                steps.append({"fn": "rb_bind", "out": await call("rb_bind")})
+                bound = True
+            elif phase == "U" and bound:
+                steps.append({"fn": "rb_unbind", "out": await call("rb_unbind")})
+                bound = False
+            for fn in p["fns"]:
+                env.hass.states.async_set("sensor.e2", "on", {"a0": 1})
+                await env.settle(0)
+                out = await call(fn)
+                st = env.hass.states.get("sensor.e2")
+                steps.append({"fn": fn, "bound": bound, "out": out,
+                              "store": None if st is None else [st.state, canon_dict(dict(st.attributes))]})
+        return steps
+
+    import gc
+    gc.collect()
+    return run_ha({"p.py": PROBE_SRC}, p["legacy"], body)
+
+
+def judge_probe(p):
+    bad = []
+    obs = p.get("_obs") or []
+    if p["probe"] == "alias":
+        for i, st in enumerate(obs):
+            want = AL_EXPECT[st["fn"]]
+            if st["out"][0] != "val":
+                bad.append((i, "alias-probe-raise", f"{st['fn']}: {st['out']}"))
+                continue
+            got = json.loads(st["out"][1])
+            if got[0] != want[0] or got[1] != want[1]:
+                bad.append((i, "caller-dict-mutated", f"{st['fn']}: the caller's new_attributes dict is {got[0]} / {got[1]} after "
+                                                      f"state.set(..., k=v); it was {want[0]}"))
+            elif got[2] != want[2] or got[3] != want[3]:
+                bad.append((i, "reused-dict-attrs", f"{st['fn']}: entities got attributes {got[2]} / {got[3]} instead of "
+                                                    f"{want[2]} / {want[3]}"))
+        return bad
+    for i, st in enumerate(obs):
+        fn = st["fn"]
+        if fn in ("rb_bind", "rb_unbind"):
+            if st["out"][0] != "val":
+                bad.append((i, "rebind-probe-driver", f"{fn}: {st['out']}"))
+            continue
+        if st["bound"]:
+            want = RB_BOUND[fn]
+            ok = (st["out"] == ["py", want]) and st["store"] == ["on", [["a0", "1"]]]
+            if not ok:
+                bad.append((i, "pyvar-ignored-on-rerun", f"step {i} {fn} with `sensor` bound to a Python object (order {p['order']}): "
+                                                         f"saw {st['out']}, sensor.e2 = {st['store']}: the Python variable must take precedence"))
+        else:
+            wout, wstore = RB_UNBOUND[fn]
+            if st["out"] != wout or st["store"] != wstore:
+                bad.append((i, "state-ignored-on-rerun", f"step {i} {fn} with no Python variable `sensor` (order {p['order']}): "
+                                                         f"saw {st['out']}, sensor.e2 = {st['store']} instead of {wout}, {wstore}"))
+    return bad
+
+
 def gen_cases(rng, tier, search):
     if sorted(model_str_attrs()) != sorted(STR_ATTRS):
         raise RuntimeError("the model's STR_ATTRS is not dir(str) of this python: "
@@ -364,6 +538,10 @@ def gen_cases(rng, tier, search):
     for p in payloads:
         c = Case(p, case_line(p), tags=tags_of(p))
         c.nontrivial = any(o["k"] in ("store", "set", "setattr", "del", "delete", "extset", "extremove", "aug") for o in p["ops"])
+        cases.append(c)
+    for p in probe_cases(rng):                       # also part of the failing-input search
+        c = Case(p, None, tags=tags_of(p) + ["probe:" + p["probe"]])
+        c.nontrivial = True
         cases.append(c)
     return cases
 
@@ -652,7 +830,24 @@ def _worker(batch):
 BATCH = 8
 
 
+def _probe_worker(p):
+    try:
+        return {"obs": run_probe(p)}
+    except BaseException as e:
+        import traceback
+        return {"crash": f"{type(e).__name__}: {e}", "tb": traceback.format_exc()[-1500:]}
+
+
 def run_impl(cases):
+    probes = [c for c in cases if c.payload.get("kind") == "probe"]
+    cases = [c for c in cases if c.payload.get("kind") != "probe"]
+    if probes:
+        for c, r in zip(probes, common.pmap(_probe_worker, [c.payload for c in probes], chunk=1)):
+            if "crash" in r:
+                raise RuntimeError("harness environment crashed: " + r["crash"] + "\n" + r.get("tb", ""))
+            c.payload["_obs"] = r["obs"]
+            c.impl, c.model = "probe", None     # no model column: judged by the fixed oracle only
+            c.line = None
     groups = {}
     for idx, c in enumerate(cases):
         p = c.payload
@@ -912,6 +1107,9 @@ def judge(c):
 
 
 def verdict(c):
+    if c.payload.get("kind") == "probe":
+        bad = judge_probe(c.payload)
+        return bad[0][2] if bad else None
     bad = judge(c)
     if not bad:
         if c.spec is not None and " conf=" in c.spec:
@@ -928,6 +1126,9 @@ def verdict(c):
 
 
 def classify(c, reason):
+    if c.payload.get("kind") == "probe":
+        bad = judge_probe(c.payload)
+        return bad[0][1] if bad else "probe-none"
     bad = judge(c)
     novel = [b for b in bad if b[1] not in FINDING_SIGS]
     if novel or bad:
@@ -937,11 +1138,15 @@ def classify(c, reason):
 
 def replay_cases(obj):
     p = {k: v for k, v in obj["case"].items() if not k.startswith("_")}
+    if p.get("kind") == "probe":
+        return [Case(p, None, tags=tags_of(p) + ["probe:" + p["probe"]])]
     return [Case(p, case_line(p), tags=tags_of(p))]
 
 
 def shrink(c, reason):
     """drop operations that are not needed for the first failing step to keep failing the same way"""
+    if c.payload.get("kind") == "probe":
+        return c
     sig = classify(c, reason)
     p = {k: v for k, v in c.payload.items() if not k.startswith("_")}
     best = c
